@@ -237,10 +237,11 @@ def main(argv=None):
             if (cn, base) in seen:
                 continue
             seen.add((cn, base))
-            path, confirmed, out = replay_native(a.prop, cn, o['name'], o.get('witness'), a.repo, outdir,
+            replayable = getattr(REGISTRY[cn], 'replayable', True)
+            path, confirmed, out = replay_native(a.prop, cn, o['name'], o.get('witness') if replayable else None, a.repo, outdir,
                                                  dict(path_condition=o.get('pc'), goal=o.get('goal'), backend=o['backend'],
                                                       verifier_detail=o.get('detail')))
-            if not confirmed:
+            if not confirmed and replayable:
                 # the obligation is refuted but this witness does not reproduce natively: search the contract's
                 # input space for one that does (native code, concrete clauses)
                 try:
@@ -253,7 +254,7 @@ def main(argv=None):
                         json.dump(rec, open(path, 'w'), indent=1, default=str)
                 except subprocess.TimeoutExpired:
                     pass
-            if not confirmed and o['backend'].startswith('z3-model'):
+            if not confirmed and replayable and o['backend'].startswith('z3-model'):
                 # a solver model that the native code does not reproduce: the model may assign impossible values to
                 # symbols that stand for callee results (contracts are weaker than bodies) -> undecided, not a violation
                 undecided.append((cn, o['name'] + ' :: solver counter-model not reproduced on the native code (see %s)' % path))
